@@ -6,6 +6,7 @@ package main
 
 import (
 	"fmt"
+	"strconv"
 	"strings"
 
 	mxj "github.com/clbanning/mxj/v2"
@@ -165,6 +166,32 @@ func c10Exec(op string) string {
 			}
 		}
 	}
+	// sub-key conditions: a replacement happens only in a node that satisfies them (evaluated
+	// with an independent reading of the documented predicate on the Map as it was before)
+	if note == "" && haveKV && len(subs) > 0 {
+		conds, okc := parseSubKeysDoc(subs, sep)
+		if okc {
+			for _, x := range ch {
+				loc := x.loc
+				memberReplaced := strings.HasPrefix(loc[len(loc)-1], "[")
+				holderLoc := loc[:len(loc)-1]
+				if memberReplaced {
+					holderLoc = loc[:len(loc)-2]
+				}
+				holder := valueAt(before, holderLoc)
+				sat := docSubPred(holder, conds)
+				if memberReplaced {
+					// a member of the list under the key was replaced: either the holder or that
+					// member satisfied the conditions
+					sat = sat || docSubPred(valueAt(before, loc), conds)
+				}
+				if !sat {
+					note = fmt.Sprintf("a value was replaced at %v although the sub-key conditions %q do not hold there", loc, subs)
+					break
+				}
+			}
+		}
+	}
 	// query agreement: path ends in the key, no sub-keys, new value not a list
 	if note == "" && haveKV && len(subs) == 0 {
 		segs := strings.Split(path, ".")
@@ -295,3 +322,106 @@ func init() {
 
 // oddKeyInLoc: a key that itself looks like a list member ("[0]") makes locations ambiguous.
 func oddKeyInLoc(loc []string) bool { return false }
+
+type subCondDoc struct {
+	key   string
+	neg   bool
+	star  bool
+	value interface{}
+}
+
+// parseSubKeysDoc reads "key:value[:type]" conditions the way the documentation describes them.
+func parseSubKeysDoc(subs []string, sep string) ([]subCondDoc, bool) {
+	var out []subCondDoc
+	byKey := map[string]int{}
+	for _, s := range subs {
+		f := strings.Split(s, sep)
+		if len(f) < 2 || len(f) > 3 {
+			return nil, false
+		}
+		c := subCondDoc{key: f[0], value: f[1]}
+		if len(f) == 3 {
+			switch f[2] {
+			case "string", "char", "text":
+			case "bool", "boolean":
+				b, err := strconv.ParseBool(f[1])
+				if err != nil {
+					return nil, false
+				}
+				c.value = b
+			case "float", "float64", "num", "number", "numeric":
+				x, err := strconv.ParseFloat(f[1], 64)
+				if err != nil {
+					return nil, false
+				}
+				c.value = x
+			default:
+				return nil, false
+			}
+		}
+		if s, ok := c.value.(string); ok && s == "*" {
+			c.star = true
+		}
+		raw := c.key
+		if strings.HasPrefix(c.key, "!") {
+			c.neg, c.key = true, c.key[1:]
+		}
+		if i, dup := byKey[raw]; dup {
+			out[i] = c // a repeated condition key: the later one wins
+		} else {
+			byKey[raw] = len(out)
+			out = append(out, c)
+		}
+	}
+	return out, true
+}
+
+func docSubPred(v interface{}, conds []subCondDoc) bool {
+	m, ok := v.(map[string]interface{})
+	if !ok {
+		return len(conds) == 0
+	}
+	for _, c := range conds {
+		x, present := m[c.key]
+		switch {
+		case c.star && !c.neg:
+			if !present {
+				return false
+			}
+		case c.star && c.neg:
+			if present {
+				return false
+			}
+		case !c.neg:
+			if !present || !deepEq(x, c.value) {
+				return false
+			}
+		default:
+			if !present || deepEq(x, c.value) {
+				return false
+			}
+		}
+	}
+	return true
+}
+
+func valueAt(v interface{}, loc []string) interface{} {
+	for _, l := range loc {
+		if strings.HasPrefix(l, "[") {
+			var i int
+			fmt.Sscanf(l, "[%d]", &i)
+			lst, ok := v.([]interface{})
+			if !ok || i >= len(lst) {
+				return nil
+			}
+			v = lst[i]
+		} else {
+			m, ok := v.(map[string]interface{})
+			if !ok {
+				return nil
+			}
+			v = m[l]
+		}
+	}
+	return v
+}
